@@ -323,7 +323,7 @@ func c01(env *Env, rep *Report) {
 	rep.Rule = "histories over a " + fmt.Sprint(len(alpha)) + "-symbol packet alphabet (" + strings.Join(names, " ") + "), x {token auth} x {smart card}: " +
 		"(1) BFS to a fixpoint on the canonical key (processor state, tunnel snapshot, monitor state, ended, steps after end<=2) — all histories modulo the key; " +
 		"(2) unmerged enumeration of every history up to depth d, which also cross-checks the key (equal keys must give equal observations for every one-symbol extension); " +
-		"(3) the depth-<=d' histories again over the real websocket and legacy handlers; (4) a second legacy RDG_IN_DATA request with the same connection id at three points of the first one's life; (4b) non-initial gateway state: after a legacy tunnel went through the whole sequence and one data packet and was left open / closed in order / dropped, a websocket or legacy connection presenting the same connection id, or another one: every history up to depth 2 (thorough 3) plus the canonical history with one extra symbol at every position, judged by a fresh reference monitor (the new connection has to complete the sequence itself); (4c) pipelining: the canonical history with one extra symbol at every position, and every pair of symbols after each canonical prefix, sent without waiting for the answers, on all three transports: same responses, connections and relayed bytes as when every answer is awaited; (5) the authorization sequence, cookie and capability wiring against the real binary. distinct_nontrivial = distinct canonical states reached."
+		"(3) the depth-<=d' histories again over the real websocket and legacy handlers; (4) a second legacy RDG_IN_DATA request with the same connection id at three points of the first one's life and after the first one ended (channel closed, protocol error, dropped); (4b) non-initial gateway state: after a legacy tunnel went through the whole sequence and one data packet and was left open / closed in order / dropped, a websocket or legacy connection presenting the same connection id, or another one: every history up to depth 2 (thorough 3) plus the canonical history with one extra symbol at every position, judged by a fresh reference monitor (the new connection has to complete the sequence itself); (4c) pipelining: the canonical history with one extra symbol at every position, and every pair of symbols after each canonical prefix, sent without waiting for the answers, on all three transports: same responses, connections and relayed bytes as when every answer is awaited; (5) the authorization sequence, cookie and capability wiring against the real binary. distinct_nontrivial = distinct canonical states reached."
 	rep.Assumptions = append(rep.Assumptions,
 		"processor level uses a table cookie checker that sets the tunnel fields exactly as security.CheckPAACookie does (the JWT path is C02's); host policy is the real security.CheckSession/CheckHost",
 		"one packet per transport read (segmentation is C08's)",
